@@ -20,12 +20,12 @@ MUTATING = ('H5Fcreate', 'H5Dcreate2', 'H5Dset_extent', 'H5Dwrite', 'H5Awrite', 
 
 class Cfg:
     def __init__(self, n, d, sc, fc, cont, chunk, calls, tsize=2, cplx=0, nsub=1, close=True, api='blocks', fault=None,
-                 start_lo=None, start_hi=None, fs_init=None, name=None, max_files=3, window_style='abstract', window_regular=None, dir_init=None, max_chunk=10**6, getters=True):
+                 start_lo=None, start_hi=None, fs_init=None, name=None, stale_tmp=False, max_files=3, window_style='abstract', window_regular=None, dir_init=None, max_chunk=10**6, getters=True):
         self.n, self.d, self.sc, self.fc, self.cont, self.chunk = n, d, sc, fc, cont, chunk
         self.calls, self.tsize, self.cplx, self.nsub, self.close, self.api, self.fault = calls, tsize, cplx, nsub, close, api, fault
         self.start_lo = start_lo if start_lo is not None else -((-315532800 * n) // d)
         self.start_hi = start_hi if start_hi is not None else (4102444800 * n) // d
-        self.fs_init = fs_init; self.dir_init = dir_init; self.max_chunk = max_chunk; self.getters = getters; self.max_files = max_files; self.window_style = window_style; self.window_regular = window_regular
+        self.stale_tmp = stale_tmp; self.fs_init = fs_init; self.dir_init = dir_init; self.max_chunk = max_chunk; self.getters = getters; self.max_files = max_files; self.window_style = window_style; self.window_regular = window_regular
         self.name = name or '%d/%dHz,%ds,%dms,%s' % (n, d, sc, fc, 'gapped' if not cont else ('cont-chunked' if chunk else 'cont'))
 
     def samples_per_file(self):
@@ -123,6 +123,7 @@ def make_driver(cfg):
         if cfg.window_regular: ex.user['window_regular'] = cfg.window_regular
         if cfg.fault: ex.user['fault'] = cfg.fault
         if cfg.fs_init: ex.user['fs_init'] = cfg.fs_init
+        if cfg.stale_tmp: ex.user['stale_tmp'] = True
         if cfg.dir_init: ex.user['dir_init'] = cfg.dir_init
         o = WObj(ex)
         start = z3.Int('start')
@@ -260,6 +261,7 @@ def build_files(ex):
             _, a, f = e
             hit = [fr for fr in files if envstubs.strid(fr['name']) == envstubs.strid(a)]
             if hit: hit[-1]['removed'] = idx
+            elif any(isinstance(p_, str) and 'tmp.' in p_ for p_ in a.parts): pass      # clearing a stale tmp. file (nobody reads those) is allowed
             else: problems.append(('remove of a file this writer did not create', idx, a))
     return files, problems
 
